@@ -135,6 +135,15 @@ class Obj:
     def __len__(self):
         return self._dunder('__len__')
 
+    def __bool__(self):
+        # truth value of a stub: its __bool__ / __len__ field if the contract declares one, else True (a plain object)
+        f = object.__getattribute__(self, '_fields')
+        if '__bool__' in f:
+            return bool(f['__bool__']())
+        if '__len__' in f:
+            return f['__len__']() != 0
+        return True
+
     def __enter__(self):
         f = object.__getattribute__(self, '_fields')
         return f['__enter__']() if '__enter__' in f else self
